@@ -364,6 +364,12 @@ func runC07(c *Ctx, _ []string) {
 		for {
 			run := hoExecute(sc.side, sc.n, sc.name, choices, nil)
 			record(run, "dfs")
+			if run.timeout || run.deadlock {
+				// goroutines of the library are stuck: nothing further can be trusted in this process
+				c.Stats["aborted_after_hang"] = true
+				c.Stats["distinct_nontrivial"] = nontrivial
+				return
+			}
 			count++
 			// next schedule: backtrack to the last decision with an untried alternative
 			w := run.widths
@@ -403,6 +409,10 @@ func runC07(c *Ctx, _ []string) {
 		sc := rnd[r.Intn(len(rnd))]
 		run := hoExecute(sc.side, sc.n, sc.name, nil, r)
 		record(run, "random")
+		if run.timeout || run.deadlock {
+			c.Stats["aborted_after_hang"] = true
+			break
+		}
 	}
 	c.Stats["distinct_nontrivial"] = nontrivial
 }
